@@ -24,7 +24,8 @@ RULE = ("same generated domain as C01, with boundary requests (exactly the adver
 REQUIRED_BUCKETS = ["supply", "consume", "multi-inverter", "zero-headroom-group", "zero-headroom-with-min-power",
                     "power-kind:excl-edge", "power-kind:incl-edge", "nonzero-exclusion", "exponent-0", "manager-level",
                     "setpoint-on-incl-bound", "setpoint-on-excl-bound"]
-REQUIRED_COUNTERS = ["contract_public", "inverter_setpoints_checked", "group_totals_checked", "enforced_bounds_observed"]
+REQUIRED_COUNTERS = ["contract_public", "inverter_setpoints_checked", "group_totals_checked", "enforced_bounds_observed",
+                     "gate_probes_inside_the_exclusion_zone"]
 ASSUMPTIONS = ["float tolerance 1e-6*max(1,|power|)", "domain as C01"]
 
 
@@ -60,14 +61,30 @@ def _manager_tier(case: dict[str, Any], rec: Any) -> None:
 
     distmon.install()
     distmon._stage.clear()  # noqa: SLF001
-    rnd = c01.manager_round(case)
+    plain = {k: v for k, v in case.items() if k not in ("mgr_outcomes", "mgr_timeout", "mgr_latency")}
+    rnd = c01.manager_round(plain)
     stages = copy.deepcopy(distmon._stage)  # noqa: SLF001  (stage record of the manager's own algorithm call)
-    if not isinstance(rnd.get("result"), Success):
-        return  # refusals are judged by C01 / C17
-    rec.bucket("manager-level")
-    rec.count("manager_set_power_calls", len(rnd["calls"]))
-    dist = {int(c["id"]): float(c["watts"]) for c in rnd["calls"]}
-    _judge(dict(case, exp=1.0), rec, band=True, dist=dist, stages=stages)
+    if isinstance(rnd.get("result"), Success):
+        rec.bucket("manager-level")
+        rec.count("manager_set_power_calls", len(rnd["calls"]))
+        dist = {int(c["id"]): float(c["watts"]) for c in rnd["calls"]}
+        _judge(dict(case, exp=1.0), rec, band=True, dist=dist, stages=stages)
+    # the admission gate: a request strictly inside the exclusion zone the pool advertises is either refused, or - if
+    # the manager does take it - what it commands still has to respect every bound
+    _, a_el, a_eu, _ = batdata.advertised(case)
+    side = a_eu if case["power"] > 0 else a_el
+    if abs(side) > 2e-3:
+        inside = side * (0.35 + 0.5 * ((abs(case["power"]) * 0.6180339887) % 1.0))
+        for adjust in (True, False):
+            probe = dict(plain, power=inside, mgr_adjust=adjust, power_kind="inside-advertised-exclusion-zone")
+            distmon._stage.clear()  # noqa: SLF001
+            r2 = c01.manager_round(probe)
+            st2 = copy.deepcopy(distmon._stage)  # noqa: SLF001
+            rec.count("gate_probes_inside_the_exclusion_zone")
+            if isinstance(r2.get("result"), Success) and r2.get("calls"):
+                rec.bucket("manager-took-a-request-inside-the-advertised-exclusion-zone")
+                d2 = {int(c["id"]): float(c["watts"]) for c in r2["calls"]}
+                _judge(dict(probe, exp=1.0), rec, band=True, dist=d2, stages=st2)
 
 
 def _judge(case: dict[str, Any], rec: Any, band: bool, dist: dict[int, float] | None = None,
